@@ -8,9 +8,9 @@
 //! streams:  DOC  (kind, part, impl outcome)   kind 0 whole document,
 //!                1 `{f(a:"` part `")}`   2 `{f(a:"""` part `""")}`
 //!                3 `query($v:` part `){a}`   4 `{f(a:` part `)}`
-//!                5 `query($v:S="""` part `"""){a}`
+//!                5 `query($v:S="""` part `"""){a}`   6 `query($v:Int ` part `){a}`
 //!           TNEW (text, Type::new(text))
-//!           SDL  (text, Ok [(kind, name, description)] | Err kind)
+//!           SDL  (text, Ok [the ServiceDocument's definitions as ParserModel.sdef] | Err kind)
 use std::fmt::Write as _;
 
 use agv_harness::*;
@@ -156,14 +156,118 @@ fn run_doc(text: &str) -> (String, String) {
     }
 }
 
-fn sdl_kind(k: &TypeKind) -> u32 {
-    match k {
-        TypeKind::Scalar => 1,
-        TypeKind::Object(_) => 2,
-        TypeKind::Interface(_) => 3,
-        TypeKind::Union(_) => 4,
-        TypeKind::Enum(_) => 5,
-        TypeKind::InputObject(_) => 6,
+fn p_cdirs(ds: &[Positioned<ConstDirective>]) -> String {
+    g_list(ds.iter(), |d| {
+        format!(
+            "{{| pd_name := {}; pd_args := {} |}}",
+            g_str(&d.node.name.node),
+            g_list(d.node.arguments.iter(), |(k, v)| format!("({}, {})", g_str(&k.node), p_value(&v.node.clone().into_value())))
+        )
+    })
+}
+
+fn p_odesc(d: &Option<Positioned<String>>) -> String {
+    g_opt(d.as_ref(), |d| g_str(&d.node))
+}
+
+fn p_input(v: &InputValueDefinition) -> String {
+    format!(
+        "{{| iv_desc := {}; iv_name := {}; iv_ty := {}; iv_default := {}; iv_dirs := {} |}}",
+        p_odesc(&v.description),
+        g_str(&v.name.node),
+        p_type(&v.ty.node),
+        g_opt(v.default_value.as_ref(), |d| p_value(&d.node.clone().into_value())),
+        p_cdirs(&v.directives)
+    )
+}
+
+fn p_fields(fs: &[Positioned<FieldDefinition>]) -> String {
+    g_list(fs.iter(), |f| {
+        let f = &f.node;
+        format!(
+            "{{| fd_desc := {}; fd_name := {}; fd_args := {}; fd_ty := {}; fd_dirs := {} |}}",
+            p_odesc(&f.description),
+            g_str(&f.name.node),
+            g_list(f.arguments.iter(), |a| p_input(&a.node)),
+            p_type(&f.ty.node),
+            p_cdirs(&f.directives)
+        )
+    })
+}
+
+fn p_names(ns: &[Positioned<async_graphql_value::Name>]) -> String {
+    g_list(ns.iter(), |n| g_str(&n.node))
+}
+
+fn loc_text(l: &DirectiveLocation) -> &'static str {
+    use DirectiveLocation::*;
+    match l {
+        Query => "QUERY",
+        Mutation => "MUTATION",
+        Subscription => "SUBSCRIPTION",
+        Field => "FIELD",
+        FragmentDefinition => "FRAGMENT_DEFINITION",
+        FragmentSpread => "FRAGMENT_SPREAD",
+        InlineFragment => "INLINE_FRAGMENT",
+        Schema => "SCHEMA",
+        Scalar => "SCALAR",
+        Object => "OBJECT",
+        FieldDefinition => "FIELD_DEFINITION",
+        ArgumentDefinition => "ARGUMENT_DEFINITION",
+        Interface => "INTERFACE",
+        Union => "UNION",
+        Enum => "ENUM",
+        EnumValue => "ENUM_VALUE",
+        InputObject => "INPUT_OBJECT",
+        InputFieldDefinition => "INPUT_FIELD_DEFINITION",
+        VariableDefinition => "VARIABLE_DEFINITION",
+    }
+}
+
+fn p_sdef(x: &TypeSystemDefinition) -> String {
+    match x {
+        TypeSystemDefinition::Schema(sd) => {
+            let sd = &sd.node;
+            format!(
+                "(SSchema {} {} {} {} {})",
+                g_bool(sd.extend),
+                p_cdirs(&sd.directives),
+                g_opt(sd.query.as_ref(), |n| g_str(&n.node)),
+                g_opt(sd.mutation.as_ref(), |n| g_str(&n.node)),
+                g_opt(sd.subscription.as_ref(), |n| g_str(&n.node))
+            )
+        }
+        TypeSystemDefinition::Type(t) => {
+            let t = &t.node;
+            let kind = match &t.kind {
+                TypeKind::Scalar => "KScalar".to_string(),
+                TypeKind::Object(o) => format!("(KObject {} {})", p_names(&o.implements), p_fields(&o.fields)),
+                TypeKind::Interface(o) => format!("(KInterface {} {})", p_names(&o.implements), p_fields(&o.fields)),
+                TypeKind::Union(u) => format!("(KUnion {})", p_names(&u.members)),
+                TypeKind::Enum(e) => format!(
+                    "(KEnum {})",
+                    g_list(e.values.iter(), |v| format!(
+                        "{{| ev_desc := {}; ev_name := {}; ev_dirs := {} |}}",
+                        p_odesc(&v.node.description),
+                        g_str(&v.node.value.node),
+                        p_cdirs(&v.node.directives)
+                    ))
+                ),
+                TypeKind::InputObject(io) => format!("(KInput {})", g_list(io.fields.iter(), |a| p_input(&a.node))),
+            };
+            format!("(SType {} {} {} {} {})", g_bool(t.extend), p_odesc(&t.description), g_str(&t.name.node), p_cdirs(&t.directives), kind)
+        }
+        TypeSystemDefinition::Directive(d) => {
+            let d = &d.node;
+            format!(
+                "(SDirective {} {} {} {} {})",
+                p_odesc(&d.description),
+                g_str(&d.name.node),
+                g_list(d.arguments.iter(), |a| p_input(&a.node)),
+                g_bool(d.is_repeatable),
+                g_list(d.locations.iter(), |l| g_str(loc_text(&l.node)))
+            )
+        }
     }
 }
 
@@ -171,26 +275,7 @@ fn run_sdl(text: &str) -> (String, String) {
     let t = text.to_string();
     match catch(move || parse_schema(&t)) {
         None => ("Panic".into(), "panic".into()),
-        Some(Ok(d)) => (
-            format!(
-                "(Ok {})",
-                g_list(d.definitions.iter(), |x| match x {
-                    TypeSystemDefinition::Schema(_) => "(7%N, [], None)".to_string(),
-                    TypeSystemDefinition::Type(t) => format!(
-                        "({}%N, {}, {})",
-                        sdl_kind(&t.node.kind),
-                        g_str(&t.node.name.node),
-                        g_opt(t.node.description.as_ref(), |d| g_str(&d.node))
-                    ),
-                    TypeSystemDefinition::Directive(d) => format!(
-                        "(8%N, {}, {})",
-                        g_str(&d.node.name.node),
-                        g_opt(d.node.description.as_ref(), |d| g_str(&d.node))
-                    ),
-                })
-            ),
-            "ok".into(),
-        ),
+        Some(Ok(d)) => (format!("(Ok {})", g_list(d.definitions.iter(), p_sdef)), "ok".into()),
         Some(Err(e)) => (format!("(Err {}%N)", err_code(&e)), format!("err {}", err_code(&e))),
     }
 }
@@ -515,136 +600,229 @@ fn gen_doc(r: &mut Rng, glue: u64) -> String {
     o.s
 }
 
-fn gen_sdl(r: &mut Rng, glue: u64) -> String {
-    let mut o = Out { s: String::new(), glue };
-    for _ in 0..1 + r.below(3) {
-        let ext = r.chance(1, 6);
-        if ext {
-            o.tok(r, "extend");
-        } else if r.chance(1, 4) {
+const LOCATIONS: &[&str] = &[
+    "QUERY", "MUTATION", "SUBSCRIPTION", "FIELD", "FRAGMENT_DEFINITION", "FRAGMENT_SPREAD", "INLINE_FRAGMENT", "VARIABLE_DEFINITION",
+    "SCHEMA", "SCALAR", "OBJECT", "FIELD_DEFINITION", "ARGUMENT_DEFINITION", "INTERFACE", "UNION", "ENUM", "ENUM_VALUE", "INPUT_OBJECT",
+    "INPUT_FIELD_DEFINITION",
+];
+
+fn gen_desc(r: &mut Rng, o: &mut Out, p: u64) {
+    if r.chance(p, 100) {
+        if r.chance(1, 2) {
             let c = gen_string_content(r);
             o.tok(r, &format!("\"{}\"", c.replace(['\n', '\r'], " ")));
-        } else if r.chance(1, 3) {
+        } else {
             let c = gen_block_content(r);
             o.tok(r, &format!("\"\"\"{}\"\"\"", c));
         }
-        match r.below(8) {
-            0 => {
-                o.tok(r, "scalar");
+    }
+}
+
+/// const directives: each optional slot (arguments) drawn independently
+fn gen_cdirs(r: &mut Rng, o: &mut Out, p: u64) {
+    if !r.chance(p, 100) {
+        return;
+    }
+    for _ in 0..1 + r.below(3) {
+        o.tok(r, "@");
+        let n = gen_name(r);
+        o.tok(r, &n);
+        if r.chance(1, 2) {
+            gen_args(r, o, true);
+        }
+    }
+}
+
+/// input value definition: description? name : type default? directives?
+fn gen_input_value(r: &mut Rng, o: &mut Out, mask: usize) {
+    gen_desc(r, o, if mask & 1 != 0 { 100 } else { 0 });
+    let n = gen_name(r);
+    o.tok(r, &n);
+    o.tok(r, ":");
+    let t = gen_type_text(r, 2);
+    o.tok(r, &t);
+    if mask & 2 != 0 {
+        o.tok(r, "=");
+        gen_value(r, o, 2, true);
+    }
+    gen_cdirs(r, o, if mask & 4 != 0 { 100 } else { 0 });
+}
+
+fn gen_arguments_definition(r: &mut Rng, o: &mut Out) {
+    o.tok(r, "(");
+    for _ in 0..1 + r.below(3) {
+        let m = r.below(8);
+        gen_input_value(r, o, m);
+    }
+    o.tok(r, ")");
+}
+
+fn gen_fields_definition(r: &mut Rng, o: &mut Out) {
+    o.tok(r, "{");
+    for _ in 0..1 + r.below(3) {
+        gen_desc(r, o, 30);
+        let n = gen_name(r);
+        o.tok(r, &n);
+        if r.chance(1, 2) {
+            gen_arguments_definition(r, o);
+        }
+        o.tok(r, ":");
+        let t = gen_type_text(r, 2);
+        o.tok(r, &t);
+        gen_cdirs(r, o, 40);
+    }
+    o.tok(r, "}");
+}
+
+/// one type-system definition; `mask` selects the optional slots so that the
+/// fixed sweep covers every combination, random cases draw it at random
+fn gen_sdl_def(r: &mut Rng, o: &mut Out, which: usize, mask: usize) {
+    let ext = mask & 1 != 0;
+    let dirs = if mask & 2 != 0 { 100 } else { 0 };
+    let body = mask & 4 != 0;
+    let extra = mask & 8 != 0;
+    if ext {
+        o.tok(r, "extend");
+    } else if which != 0 {
+        gen_desc(r, o, if extra { 100 } else { 0 });
+    }
+    match which {
+        0 => {
+            o.tok(r, "schema");
+            gen_cdirs(r, o, if ext && !body { 100 } else { dirs });
+            if body || !ext {
+                o.tok(r, "{");
+                let roots = ["query", "mutation", "subscription"];
+                let k = if ext { 1 + r.below(3) } else { 3 };
+                for (i, op) in roots.iter().enumerate().take(k) {
+                    if i > 0 && r.chance(1, 3) {
+                        continue;
+                    }
+                    o.tok(r, op);
+                    o.tok(r, ":");
+                    let n = gen_name(r);
+                    o.tok(r, &n);
+                }
+                if r.chance(1, 12) {
+                    o.tok(r, "query");
+                    o.tok(r, ":");
+                    o.tok(r, "Q2");
+                }
+                o.tok(r, "}");
+            }
+        }
+        1 => {
+            o.tok(r, "scalar");
+            let n = gen_name(r);
+            o.tok(r, &n);
+            gen_cdirs(r, o, if ext { 100 } else { dirs });
+        }
+        2 | 3 => {
+            o.tok(r, if which == 2 { "type" } else { "interface" });
+            let n = gen_name(r);
+            o.tok(r, &n);
+            if extra || (ext && !body && dirs == 0 && which == 2) {
+                o.tok(r, "implements");
+                if r.chance(1, 3) {
+                    o.tok(r, "&");
+                }
                 let n = gen_name(r);
                 o.tok(r, &n);
-                if ext || r.chance(1, 3) {
-                    o.tok(r, "@");
-                    o.tok(r, "d");
+                for _ in 0..r.below(3) {
+                    o.tok(r, "&");
+                    let n = gen_name(r);
+                    o.tok(r, &n);
                 }
             }
-            1 => {
-                o.tok(r, "union");
-                let n = gen_name(r);
-                o.tok(r, &n);
+            gen_cdirs(r, o, if ext && !body && which == 3 { 100 } else { dirs });
+            if body {
+                gen_fields_definition(r, o);
+            }
+        }
+        4 => {
+            o.tok(r, "union");
+            let n = gen_name(r);
+            o.tok(r, &n);
+            gen_cdirs(r, o, if ext && !body { 100 } else { dirs });
+            if body {
                 o.tok(r, "=");
                 if r.chance(1, 3) {
                     o.tok(r, "|");
                 }
-                o.tok(r, "A");
+                let n = gen_name(r);
+                o.tok(r, &n);
                 for _ in 0..r.below(3) {
                     o.tok(r, "|");
                     let n = gen_name(r);
                     o.tok(r, &n);
                 }
             }
-            2 => {
-                o.tok(r, "enum");
-                let n = gen_name(r);
-                o.tok(r, &n);
+        }
+        5 => {
+            o.tok(r, "enum");
+            let n = gen_name(r);
+            o.tok(r, &n);
+            gen_cdirs(r, o, if ext && !body { 100 } else { dirs });
+            if body {
                 o.tok(r, "{");
                 for _ in 0..1 + r.below(3) {
-                    let n = if r.chance(1, 6) { (*r.pick(&["true", "null", "false"])).to_string() } else { gen_name(r) };
+                    gen_desc(r, o, 30);
+                    let n = if r.chance(1, 8) { (*r.pick(&["true", "null", "false", "truex", "nullable", "falsey"])).to_string() } else { gen_name(r) };
                     o.tok(r, &n);
-                }
-                o.tok(r, "}");
-            }
-            3 => {
-                o.tok(r, "schema");
-                o.tok(r, "{");
-                o.tok(r, "query");
-                o.tok(r, ":");
-                o.tok(r, "Q");
-                if r.chance(1, 3) {
-                    o.tok(r, "mutation");
-                    o.tok(r, ":");
-                    o.tok(r, "M");
-                }
-                o.tok(r, "}");
-            }
-            4 => {
-                o.tok(r, "directive");
-                o.tok(r, "@");
-                let n = gen_name(r);
-                o.tok(r, &n);
-                if r.chance(1, 2) {
-                    o.tok(r, "(");
-                    o.tok(r, "x");
-                    o.tok(r, ":");
-                    let t = gen_type_text(r, 2);
-                    o.tok(r, &t);
-                    if r.chance(1, 2) {
-                        o.tok(r, "=");
-                        gen_value(r, &mut o, 1, true);
-                    }
-                    o.tok(r, ")");
-                }
-                if r.chance(1, 4) {
-                    o.tok(r, "repeatable");
-                }
-                o.tok(r, "on");
-                o.tok(r, *r.clone().pick(&["FIELD", "FIELD_DEFINITION", "ENUM_VALUE", "ENUM", "QUERY | FIELD", "| SCHEMA", "INPUT_OBJECT"]));
-            }
-            _ => {
-                let kw = *r.pick(&["type", "interface", "input"]);
-                o.tok(r, kw);
-                let n = gen_name(r);
-                o.tok(r, &n);
-                if kw != "input" && r.chance(1, 3) {
-                    o.tok(r, "implements");
-                    if r.chance(1, 3) {
-                        o.tok(r, "&");
-                    }
-                    o.tok(r, "I");
-                    if r.chance(1, 2) {
-                        o.tok(r, "&");
-                        o.tok(r, "J");
-                    }
-                }
-                gen_dirs(r, &mut o, true);
-                o.tok(r, "{");
-                for _ in 0..1 + r.below(3) {
-                    if r.chance(1, 5) {
-                        let c = gen_block_content(r);
-                        o.tok(r, &format!("\"\"\"{}\"\"\"", c));
-                    }
-                    let n = gen_name(r);
-                    o.tok(r, &n);
-                    if kw != "input" && r.chance(1, 3) {
-                        o.tok(r, "(");
-                        o.tok(r, "x");
-                        o.tok(r, ":");
-                        let t = gen_type_text(r, 1);
-                        o.tok(r, &t);
-                        o.tok(r, ")");
-                    }
-                    o.tok(r, ":");
-                    let t = gen_type_text(r, 2);
-                    o.tok(r, &t);
-                    if kw == "input" && r.chance(1, 3) {
-                        o.tok(r, "=");
-                        gen_value(r, &mut o, 1, true);
-                    }
-                    gen_dirs(r, &mut o, true);
+                    gen_cdirs(r, o, 40);
                 }
                 o.tok(r, "}");
             }
         }
+        6 => {
+            o.tok(r, "input");
+            let n = gen_name(r);
+            o.tok(r, &n);
+            gen_cdirs(r, o, if ext && !body { 100 } else { dirs });
+            if body {
+                o.tok(r, "{");
+                for _ in 0..1 + r.below(3) {
+                    let m = r.below(8);
+                    gen_input_value(r, o, m);
+                }
+                o.tok(r, "}");
+            }
+        }
+        _ => {
+            // directive definition (no extend form: the description slot is used instead)
+            if ext {
+                o.s.truncate(o.s.rfind("extend").unwrap_or(0));
+                gen_desc(r, o, 100);
+            }
+            o.tok(r, "directive");
+            o.tok(r, "@");
+            let n = gen_name(r);
+            o.tok(r, &n);
+            if body {
+                gen_arguments_definition(r, o);
+            }
+            if dirs != 0 {
+                o.tok(r, "repeatable");
+            }
+            o.tok(r, "on");
+            if r.chance(1, 4) {
+                o.tok(r, "|");
+            }
+            o.tok(r, *r.clone().pick(LOCATIONS));
+            for _ in 0..r.below(3) {
+                o.tok(r, "|");
+                o.tok(r, *r.clone().pick(LOCATIONS));
+            }
+        }
+    }
+}
+
+fn gen_sdl(r: &mut Rng, glue: u64) -> String {
+    let mut o = Out { s: String::new(), glue };
+    for _ in 0..1 + r.below(3) {
+        let which = r.below(8);
+        let mask = r.below(16);
+        gen_sdl_def(r, &mut o, which, mask);
     }
     o.s
 }
@@ -704,6 +882,7 @@ fn main() {
             3 => format!("query($v:{}){{a}}", part),
             4 => format!("{{f(a:{})}}", part),
             5 => format!("query($v:S=\"\"\"{}\"\"\"){{a}}", part),
+            6 => format!("query($v:Int {}){{a}}", part),
             _ => part.to_string(),
         };
         let (g, im) = run_doc(&whole);
@@ -815,6 +994,10 @@ fn main() {
     for (k, p) in corpus {
         emit(&mut out, *k, p, true);
     }
+    // variable definition tail: DefaultValue? Directives? (the grammar has them the other way round)
+    for p in ["", "=1", "@d", "=1 @d", "@d =1", "=1@d(x:2)@e", "@d(x:2) = [1]", "= {a:1} @d", "=$x", "@d(x:$y)", "= 1 = 2", "@", "@d @d", "=1 @d =2"] {
+        emit(&mut out, 6, p, true);
+    }
     // block strings whose first / last / middle lines are made only of Unicode
     // White_Space that is not GraphQL WhiteSpace (BlockStringValue keeps them)
     for (i, c) in UNI_WS.iter().enumerate() {
@@ -846,6 +1029,23 @@ fn main() {
                 let c = gen_block_content(&mut r);
                 let k = if r.chance(1, 3) { 5 } else { 2 };
                 emit(&mut out, k, &c, !c.is_empty());
+            }
+            2 if i % 20 == 2 => {
+                // variable definition tail in either order
+                let mut o = Out { s: String::new(), glue: 0 };
+                let first_default = r.chance(1, 2);
+                for step in 0..2 {
+                    if (step == 0) == first_default {
+                        if r.chance(2, 3) {
+                            o.tok(&mut r, "=");
+                            gen_value(&mut r, &mut o, 1, true);
+                        }
+                    } else if r.chance(2, 3) {
+                        gen_dirs(&mut r, &mut o, true);
+                    }
+                }
+                let t = o.s;
+                emit(&mut out, 6, &t, true);
             }
             2 => {
                 let mut t = gen_type_text(&mut r, 3);
@@ -928,6 +1128,93 @@ fn main() {
         "",
     ];
     let mut sd: Vec<String> = sdl_fixed.iter().map(|s| s.to_string()).collect();
+    // kitchen-sink shapes: every optional slot of input values / fields / definitions
+    for t in [
+        "type Q{f(limit:Int=10 @deprecated):Int}",
+        "type Q{f(\"d\" arg:[T!]! = \"default\" @onArg @b(x:1)):Int @c}",
+        "input F{depth:Int=1 @deprecated}",
+        "input F{\"\"\"d\"\"\" depth:Int=1 @a @b(r:\"x\") @c b:[Int]=[1,2] c:Int @d e:E=V}",
+        "directive @d(x:Int=3 @a, \"desc\" y:String=\"s\" @b(z:{k:[1]}))repeatable on FIELD|ARGUMENT_DEFINITION",
+        "directive @d on FIELD",
+        "directive @d repeatable on FIELD",
+        "\"dd\" directive @all on QUERY|MUTATION|SUBSCRIPTION|FIELD|FRAGMENT_DEFINITION|FRAGMENT_SPREAD|INLINE_FRAGMENT|VARIABLE_DEFINITION|SCHEMA|SCALAR|OBJECT|FIELD_DEFINITION|ARGUMENT_DEFINITION|INTERFACE|UNION|ENUM|ENUM_VALUE|INPUT_OBJECT|INPUT_FIELD_DEFINITION",
+        "schema @a(x:1) @b{query:Q mutation:M subscription:S}",
+        "extend schema @a",
+        "extend schema{mutation:M}",
+        "extend schema @a{subscription:S}",
+        "schema{query:Q query:R}",
+        "schema{query:Q mutation:M mutation:N}",
+        "\"d\" type T implements &A&B @x @y(a:null){\"fd\" f(\"ad\" a:Int=1 @p b:[Int!]):T! @q g:Int}",
+        "extend type T implements A",
+        "extend type T @a",
+        "extend type T{f:Int}",
+        "extend interface I implements J @a{f:Int}",
+        "interface I implements J & K{f(a:Int):Int}",
+        "\"\"\"u\"\"\" union U @a = | A | B",
+        "extend union U = A",
+        "extend union U @a",
+        "\"e\" enum E @a{\"v\" A @b(x:1) B C @c}",
+        "extend enum E{D}",
+        "extend enum E @a",
+        "enum E{truex}",
+        "enum E{nullable A}",
+        "enum E{A falsey}",
+        "extend input I @a",
+        "extend input I{a:Int=1 @b}",
+        "extend scalar S @a @b",
+        "\"s\" scalar S @a(u:\"\\u0041\")",
+        "type Q{a:Int} scalar S directive @d on ENUM enum E{A} union U=Q input I{a:Int} interface J{a:Int} schema{query:Q}",
+    ] {
+        sd.push(t.to_string());
+    }
+    // sweep: every definition kind with every combination of its optional slots
+    for which in 0..8 {
+        for mask in 0..16 {
+            let mut o = Out { s: String::new(), glue: 0 };
+            gen_sdl_def(&mut r, &mut o, which, mask);
+            sd.push(o.s);
+        }
+    }
+    // input value definitions: all 8 combinations of description / default / directives, in the three places they occur
+    for mask in 0..8 {
+        for place in 0..3 {
+            let mut o = Out { s: String::new(), glue: 0 };
+            match place {
+                0 => {
+                    o.tok(&mut r, "type");
+                    o.tok(&mut r, "Q");
+                    o.tok(&mut r, "{");
+                    o.tok(&mut r, "f");
+                    o.tok(&mut r, "(");
+                    gen_input_value(&mut r, &mut o, mask);
+                    o.tok(&mut r, ")");
+                    o.tok(&mut r, ":");
+                    o.tok(&mut r, "Int");
+                    o.tok(&mut r, "}");
+                }
+                1 => {
+                    o.tok(&mut r, "input");
+                    o.tok(&mut r, "I");
+                    o.tok(&mut r, "{");
+                    gen_input_value(&mut r, &mut o, mask);
+                    gen_input_value(&mut r, &mut o, 7 - mask);
+                    o.tok(&mut r, "}");
+                }
+                _ => {
+                    o.tok(&mut r, "directive");
+                    o.tok(&mut r, "@");
+                    o.tok(&mut r, "d");
+                    o.tok(&mut r, "(");
+                    gen_input_value(&mut r, &mut o, mask);
+                    o.tok(&mut r, ")");
+                    o.tok(&mut r, "repeatable");
+                    o.tok(&mut r, "on");
+                    o.tok(&mut r, "FIELD");
+                }
+            }
+            sd.push(o.s);
+        }
+    }
     for (i, c) in UNI_WS.iter().enumerate() {
         let kw = ["type T{a:Int}", "scalar S", "enum E{A}", "directive @d on FIELD", "input I{a:Int}", "union U=A", "interface J{a:Int}"][i % 7];
         sd.push(format!("\"\"\"{}\ntext\n{}\"\"\" {}", c, c, kw));
